@@ -467,6 +467,8 @@ class Sym:
         """A store into an attribute / item: a substituted value that mentions it is no longer that expression."""
         text = ast.unparse(target.value if isinstance(target, ast.Subscript) else target)
         for k, v in list(env.items()):
+            if isinstance(v, ast.Name) and v.id == k:
+                continue                      # the object itself (a container that is being filled)
             if text in ast.unparse(v):
                 env[k] = _opaque(k)
 
@@ -679,6 +681,9 @@ def member_literals(conds):
             elif isinstance(op, ast.In) and isinstance(rhs, (ast.Tuple, ast.List, ast.Set)) \
                     and all(isinstance(e, ast.Constant) for e in rhs.elts):
                 out.append((ast.unparse(node.left), {e.value for e in rhs.elts}))
+            elif isinstance(op, ast.In) and isinstance(rhs, ast.Dict) and rhs.keys \
+                    and all(isinstance(e, ast.Constant) for e in rhs.keys):
+                out.append((ast.unparse(node.left), {e.value for e in rhs.keys}))
     return out
 
 
@@ -917,8 +922,32 @@ def new_dispatch(repo: Path):
                 fail(ev.orig, "writer must be called with the `overwrite` of save_to_files")
             if not isinstance(args.get("filename"), ast.AST):
                 fail(ev.orig, "writer must be called with a file name")
+        elif ev.kind == "expr" and isinstance(ev.node.value, ast.Call) and isinstance(ev.node.value.func, ast.Subscript) \
+                and isinstance(ev.node.value.func.value, ast.Dict) and ev.node.value.func.value.keys \
+                and all(isinstance(k, ast.Constant) and k.value in FMT for k in ev.node.value.func.value.keys) \
+                and all(isinstance(v, ast.Name) and v.id in NEW_WRITERS for v in ev.node.value.func.value.values):
+            # dispatch dict built inside the function: {"npy": write_to_npy, ...}[<subject>](...)
+            call, d = ev.node.value, ev.node.value.func.value
+            subj = ast.unparse(call.func.slice)
+            keys = {k.value for k in d.keys}
+            if len(mem) != 1 or mem[0][0] != subj or not mem[0][1] <= keys:
+                fail(ev.orig, "a dispatch dict must be indexed by the tested extension, under `<extension> in <dict>`")
+            subjects.add(subj)
+            for k, v in zip(d.keys, d.values):
+                if k.value not in mem[0][1]:
+                    continue
+                args = bind_call(call, mod.funcs[v.id]) if v.id in mod.funcs else {x.arg: x.value for x in call.keywords}
+                if not _is_name(args.get("overwrite"), "overwrite") or not isinstance(args.get("filename"), ast.AST):
+                    fail(ev.orig, "writer must be called with a file name and the `overwrite` of save_to_files")
+                if k.value in table:
+                    fail(fn, "a format appears in two cases")
+                table[k.value] = v.id
+            continue
         elif ev.kind == "raise" and mem:
             what = None
+        elif ev.kind == "assign" and isinstance(ev.node.value, ast.Dict) \
+                and all(isinstance(v, ast.Name) for v in ev.node.value.values):
+            continue                       # the dispatch dict itself; its use is read where it is indexed
         elif any(isinstance(n, ast.Name) and n.id in NEW_WRITERS for n in ast.walk(ev.node)):
             fail(ev.orig, "a write_to_* writer is used other than by a plain call")
         else:
@@ -942,6 +971,8 @@ def new_dispatch(repo: Path):
                            for s_txt, pol, _ in cond_literals(ev.conds, False))]
         if not default:
             fail(fn, f"formats {sorted(set(FMT) - set(table))} are not dispatched and there is no refusing default")
+        for k in FMT:
+            table.setdefault(k, None)          # refused by the default branch == refused by a case of its own
     order = ["fits", "npy", "hdf", "txt", "csv", "png", "jpg", "jpeg"]
     return [(k, table[k]) for k in order if k in table]
 
@@ -1120,16 +1151,21 @@ def _old_store(sym: Sym) -> bool:
     fn = sym.frames[0].fn
     # the result mapping: the local dict handed to _dict_to_datatree / returned
     accs = set()
-    for ev in sym.events:
+    events = [ev for ev in sym.events if not ev.in_ctx("called")]     # a helper read with unbound parameters has its own dicts
+    for ev in events:
         if ev.kind == "assign" and isinstance(ev.node.targets[0], ast.Name) and isinstance(ev.orig, (ast.Assign, ast.AnnAssign)) \
                 and isinstance(ev.orig.value, (ast.Dict, ast.Call)) and ast.unparse(ev.orig.value) in ("{}", "dict()") \
                 and not ev.in_ctx("loop"):
             accs.add(ev.node.targets[0].id)
-    stores = []
-    for ev in sym.events:
+    stores, inits = [], set()
+    for ev in events:
         o = ev.node
         if ev.kind == "assign" and isinstance(o.targets[0], ast.Subscript) and isinstance(o.targets[0].value, ast.Name) \
                 and o.targets[0].value.id in accs:
+            key = f"{ast.unparse(o.targets[0].slice)} in {o.targets[0].value.id}"
+            if ast.unparse(o.value) in ("{}", "dict()") and (key, False) in [(t, p) for t, p, _ in cond_literals(ev.conds, False)]:
+                inits.add(ast.unparse(o.targets[0]))       # `if k not in acc: acc[k] = {}`: the entry is created once
+                continue
             stores.append(("replace", ev))
         elif ev.kind == "expr" and isinstance(o.value, ast.Call) and isinstance(o.value.func, ast.Attribute) \
                 and o.value.func.attr == "update":
@@ -1140,6 +1176,9 @@ def _old_store(sym: Sym) -> bool:
                 stores.append(("merge", ev))
             elif isinstance(base, ast.Name) and base.id in accs:
                 stores.append(("replace", ev))           # acc.update({k: v}) replaces the entry of k
+            elif isinstance(base, ast.Subscript) and isinstance(base.value, ast.Name) and base.value.id in accs \
+                    and ast.unparse(base) in inits:
+                stores.append(("merge", ev))
             elif any(isinstance(n, ast.Name) and n.id in accs for n in ast.walk(base)):
                 fail(ev.orig, "unknown store into the result mapping")
         elif ev.kind == "augstore" and any(isinstance(n, ast.Name) and n.id in accs for n in ast.walk(o.target)):
